@@ -987,6 +987,10 @@ class Manager:
         finally:
             with contextlib.suppress(Exception):
                 self.tick()
+                # Handlers run by the last ticks may have fired again:
+                # leave nothing behind for the caller (or the next run).
+                while len(self._queue):
+                    self.flush()
 
         self.root._executing_thread = None
         self.__thread = None
